@@ -158,6 +158,8 @@ def run(ctx):
                 meta[tid] = case
                 if k == 1 and variant == 0:
                     ctx.sample(dict(case, events=[f"{e['role']}:{e['ev']}" for e in sched.log][:40]), limit=4)
+    real_runs(ctx, rng)
+    replay_tlc_behaviours(ctx, rng)
     verdicts = RC.validate_traces(ctx, records)
     rejected = {t: v for t, v in verdicts.items() if v is not None}
     ctx.extra["virtual_executions"] = executions
@@ -169,6 +171,117 @@ def run(ctx):
         "a trace that Runner.tla cannot explain lowers model_conformance and is reported, but only an end-to-end clause (files / report / exit status / termination) raises a VIOLATION (rule R1)",
         "small-scope hypothesis for the exhaustive protocol exploration (NW, NC in MC_Runner_*.cfg)",
     ]
+
+
+def input_with_chunks(rng, nc, paired=False):
+    """reads and a buffer size for which the reader produces exactly nc chunks"""
+    for _ in range(200):
+        reads, reads2 = make_reads(rng, rng.randint(6 * nc, 14 * nc), paired)
+        data = [fastq_bytes(reads)] + ([fastq_bytes(reads2)] if paired else [])
+        for bs in (400, 600, 800, 1000, 1300, 1700, 2200, 3000):
+            try:
+                if RC.count_chunks(data, bs) == nc:
+                    return reads, reads2, bs
+            except Exception:
+                continue
+    raise RuntimeError("no input with the wanted number of chunks found")
+
+
+def replay_tlc_behaviours(ctx, rng):
+    """spec -> code: behaviours TLC hands out (simulation of Runner, fault-free) are executed step by step by
+    the real runner under the virtual scheduler; every hook event must be the event of the scheduled action
+    with the same arguments, and the outputs must equal the one-core run."""
+    n = 40 if ctx.quick else 1500
+    done = diverged = 0
+    examples = []
+    for cfgname, nw, nc, share in (("MC_Runner_sim.cfg", 2, 3, 0.6), ("MC_Runner_sim34.cfg", 3, 4, 0.4)):
+        behs = RC.simulate_behaviours(ctx, cfgname, max(1, int(n * share)), depth=120, seed=ctx.seed + nw)
+        for oname in ("plain", "redirect", "demux", "infofiles"):
+            pass
+        for bi, beh in enumerate(behs):
+            oname = ["plain", "redirect", "demux", "infofiles", "stats", "revcomp"][bi % 6]
+            paired, opts = OPTION_SETS[oname]
+            reads, reads2, bs = input_with_chunks(rng, nc, paired)
+            inputs = {"in1.fastq": fastq_bytes(reads)}
+            base = opts + ["--json", "rep.json", "in1.fastq"]
+            ser = run_cli(base, inputs, os.path.join(ctx.scratch, "ser"))
+            steps, readies = RC.script_of(beh)
+            pol = vmp.ScriptPolicy(steps, seed=bi, ready_lists=readies)
+            argv = ["-j", str(nw), "--buffer-size", str(bs)] + base
+            par, sched = RC.run_virtual(argv, inputs, os.path.join(ctx.scratch, "par"), pol)
+            case = dict(option_set=oname, argv=argv, nw=nw, nc=nc, behaviour=[" ".join(map(str, x)) for x in beh])
+            if sched.deadlock or isinstance(par, Exception):
+                ctx.violation("TerminatesUnderEverySchedule", f"C06:deadlock:{oname}:tlc-behaviour", dict(case, deadlock=sched.deadlock))
+                continue
+            done += 1
+            ok = pol.mismatch is None and pol.ptr == len(steps) and len(sched.log) == len(beh) and \
+                all(RC.event_matches(lab, e) for lab, e in zip(beh, sched.log))
+            if not ok:
+                diverged += 1
+                if len(examples) < 3:
+                    examples.append(dict(case, mismatch=pol.mismatch, consumed=pol.ptr, of=len(steps),
+                                         events=[f"{e['role']}:{e['ev']}" for e in sched.log]))
+            for clause, detail in compare(ser, par):
+                ctx.violation(clause, f"C06:{clause}:{oname}", dict(case, detail=detail), case=case)
+            if bi == 0:
+                ctx.sample(dict(tlc_behaviour_replayed=case["behaviour"][:30], option_set=oname), limit=6)
+    ctx.traces += done
+    ctx.extra["tlc_behaviours_replayed"] = done
+    ctx.extra["tlc_behaviours_diverged"] = diverged
+    ctx.extra["tlc_behaviour_divergence_examples"] = examples
+
+
+def real_runs(ctx, rng):
+    """Real multi-process executions (OS scheduling): outputs against the one-core run, and the per-process
+    hook logs validated as an interleaving that Runner allows (Trace_RunnerMP)."""
+    n = 4 if ctx.quick else 60
+    accepted = rejected = 0
+    details = []
+    for k in range(n):
+        oname = rng.choice(["plain", "redirect", "demux", "paired", "stats"])
+        paired, opts = OPTION_SETS[oname]
+        reads, reads2 = make_reads(rng, rng.choice((40, 70)), paired)
+        inputs = {"in1.fastq": fastq_bytes(reads)}
+        infiles = ["in1.fastq"]
+        if paired:
+            inputs["in2.fastq"] = fastq_bytes(reads2)
+            infiles.append("in2.fastq")
+        base = opts + ["--json", "rep.json"] + infiles
+        ser = run_cli(base, inputs, os.path.join(ctx.scratch, "ser"))
+        nw = rng.choice((2, 3))
+        bs = rng.choice((900, 1500, 2500))
+        nc = RC.count_chunks([inputs[f] for f in infiles], bs)
+        argv = ["-j", str(nw), "--buffer-size", str(bs)] + base
+        r = RC.real_run(argv, inputs, os.path.join(ctx.scratch, "real"), os.path.join(ctx.scratch, "realtrace"), timeout=120)
+        case = dict(option_set=oname, argv=argv, nw=nw, nc=nc, real_processes=True)
+        if r["timed_out"]:
+            ctx.violation("TerminatesUnderEverySchedule", f"C06:timeout:{oname}:real-process", case)
+            continue
+
+        class _P:
+            pass
+        par = _P()
+        par.exit, par.errors, par.exception, par.stdout = r["exit"], [r["stderr"][-200:]], None, ser.stdout
+        par.files = {}
+        par.json = None
+        for name, data in r["files"].items():
+            if name.endswith(".json"):
+                try:
+                    par.json = json.loads(data)
+                except Exception:
+                    par.json = None
+            else:
+                par.files[name] = decompress(name, data)
+        for clause, detail in compare(ser, par):
+            ctx.violation(clause, f"C06:{clause}:{oname}", dict(case, detail=detail), case=case)
+        ok, det = RC.validate_mp_run(ctx, r["logs"], nw, nc, ["none"])
+        accepted += ok
+        rejected += (not ok)
+        if not ok:
+            details.append(dict(case, detail=det))
+    ctx.extra["real_process_runs"] = n
+    ctx.extra["real_process_traces_explained_by_Runner"] = accepted
+    ctx.extra["real_process_traces_not_explained"] = details[:3]
 
 
 def replay(ctx, path):
